@@ -1,6 +1,6 @@
 (** * MddOps: [MDD.find_or_add], [MDD.ite], [MDD.apply], canonicity and
       [MDD.collect_garbage] *)
-From DD Require Export MddSem C01proof GC.
+From DD Require Export MddSem C01proof GC DddmpLoad.
 Local Open Scope string_scope.
 
 Lemma hd_head (l : list Z) : default 0%Z (head l) = hd 0%Z l.
@@ -1338,4 +1338,1077 @@ Proof.
       apply elem_of_dom. rewrite (MW_term s1 HW). by eexists.
   - intros n t Hn. apply (lookup_weaken _ _ _ _ Hn (mj_sub _ _ _ _ HJ)).
   - exact (mj_free _ _ _ _ HJ).
+Qed.
+
+Local Close Scope string_scope.
+
+(** ** [bdd_to_mdd] *)
+Definition dvars_t := list (nat * (nat * list nat)).
+Definition b2v (dvars : dvars_t) : list (nat * nat) :=
+  flat_map (fun v : nat * (nat * list nat) => List.map (fun b => (b, v.1)) v.2.2) dvars.
+Definition b2m_mdd0 (dvars : dvars_t) : mst :=
+  mdd_init (List.map (fun x : nat * (nat * list nat) =>
+                           (x.1, (x.2.1, 2 ^ length x.2.2))) dvars).
+
+(** one iteration of the final loop: the MDD node of BDD node [u] *)
+Definition b2m_step (dvars : dvars_t) (keep : gset positive) :
+    mst * list (positive * Z) → positive → MS (mst * list (positive * Z)) :=
+  fun '(mdd, umap) u =>
+      if decide (u ∉ keep) then ret (mdd, umap) else
+      t <- getsucc u ;;
+      bit <- var_at_level (t_lvl t) ;;
+      var <- of_opt EKey (Mdd.assoc (b2v dvars) bit) ;;
+      lb <- of_opt EKey (Mdd.assoc dvars var) ;;
+      let '(j, bits) := lb in
+      bit_succ <- mapM (fun d => cofactor (Z.pos u) true d) (enumerate_integer bits) ;;
+      int_succ <- mapM (fun z : Z =>
+                    x <- of_opt EKey (Mdd.assoc umap (absn z)) ;;
+                    ret (if decide (0 < z)%Z then x else (- x)%Z)) bit_succ ;;
+      match m_find_or_add j int_succ mdd with
+      | (Ok x, mdd') => ret (mdd', umap ++ [(u, x)])
+      | (Err e, _) => raise e
+      end.
+
+(** the selection of the zone-entry nodes *)
+Definition b2m_keep (dvars : dvars_t) (bit_to_sort : list (nat * nat)) (s : st)
+  : MS (gset positive) :=
+  let preds (u : positive) : list positive :=
+    omap (M:=list) (fun pt : positive * triple =>
+      if bool_decide (pt.1 ≠ 1%positive ∧ (absn (t_lo pt.2) = u ∨ absn (t_hi pt.2) = u))
+      then Some pt.1 else None) (map_to_list (succ s)) in
+  foldM (fun (keep : gset positive) '(u, t) =>
+      let p := preds u in
+      rc <- ref (Z.pos u) ;;
+      if decide (length (remove_dups p) < rc) then ret (keep ∪ {[u]}) else
+      bit <- var_at_level (t_lvl t) ;;
+      var <- of_opt EKey (Mdd.assoc (b2v dvars) bit) ;;
+      bits <- of_opt EKey (option_map snd (Mdd.assoc dvars var)) ;;
+      lsb <- of_opt EKey (head bits) ;;
+      min_level <- of_opt EKey (Mdd.assoc bit_to_sort lsb) ;;
+      match List.map (fun q => lvl_of s (Z.pos q)) p with
+      | [] => raise EValue
+      | l :: ls =>
+          if decide (foldr Nat.min l ls < min_level) then ret (keep ∪ {[u]}) else ret keep
+      end) ∅ (map_to_list (succ s)).
+
+(** the part of [bdd_to_mdd] after the call of [reorder] *)
+Definition bdd_to_mdd_tail (dvars : dvars_t) (bit_to_sort : list (nat * nat))
+    (order : list positive) : MS (mst * list (positive * Z)) :=
+  s <- get ;;
+  keep <- b2m_keep dvars bit_to_sort s ;;
+  let nonterm := filter (fun u => u ≠ 1%positive) (elements (dom (succ s))) in
+  if negb (bool_decide (NoDup order ∧ (list_to_set order : gset positive) = list_to_set nonterm ∧
+                        Sorted (fun a b => lvl_of s (Z.pos b) <= lvl_of s (Z.pos a)) order))
+  then raise EOracle else
+  r <- foldM (b2m_step dvars keep) (b2m_mdd0 dvars, [(1%positive, 1%Z)]) order ;;
+  ret r.
+
+Lemma bdd_to_mdd_unfold dvars order :
+  bdd_to_mdd dvars order =
+  (let m := length dvars in
+   bits_in_order <- mapM (fun j =>
+      of_opt EKey (match list_find (fun '(_, (l, _)) => bool_decide (l = j)) dvars with
+                   | Some (_, (_, (_, bits))) => Some bits
+                   | None => None
+                   end)) (seq 0 m) ;;
+   let target := concat bits_in_order in
+   let bit_to_sort : list (nat * nat) := imap (fun k b => (b, k)) target in
+   collect_garbage None ;;;
+   reorder (Some (list_to_map bit_to_sort)) ;;;
+   bdd_to_mdd_tail dvars bit_to_sort order).
+Proof. reflexivity. Qed.
+
+(** *** association lists of the MDD model *)
+Lemma assoc_alist {K A} `{EqDecision K} (l : list (K * A)) k : Mdd.assoc l k = alist_get l k.
+Proof. unfold Mdd.assoc, alist_get. by destruct (list_find _ l) as [[? [? ?]]|]. Qed.
+
+Lemma b2v_elem dvars b v :
+  (b, v) ∈ b2v dvars ↔ ∃ j bits, (v, (j, bits)) ∈ dvars ∧ b ∈ bits.
+Proof.
+  unfold b2v. rewrite elem_of_list_In, in_flat_map. split.
+  - intros ([v' [j bits]]&Hin&Hb). cbn in Hb. apply in_map_iff in Hb as (b'&[= -> ->]&Hb).
+    exists j, bits. by rewrite !elem_of_list_In.
+  - intros (j&bits&Hin&Hb). exists (v, (j, bits)). rewrite <- elem_of_list_In. split; [done|].
+    cbn. apply in_map_iff. exists b. by rewrite <- elem_of_list_In.
+Qed.
+
+(** *** the key mapping, by name *)
+Lemma map_key_name_inv s first k r s' : map_key true first k s = (r, s') →
+  s' = s ∧ match r with
+           | Ok l => vars s !! k = Some l
+           | Err e => e ≠ ENeedsReordering
+           end.
+Proof.
+  unfold map_key. cbn [bind get]. destruct (vars s !! k) as [l|].
+  - by intros [= <- <-].
+  - intros [= <- <-]. split; [done|]. by destruct first.
+Qed.
+
+Lemma mapM_map_key_inv s (kv : list (nat * bool)) r s' :
+  mapM (fun '(k, a) => l <- map_key true false k ;; ret (l, a)) kv s = (r, s') →
+  s' = s ∧ match r with
+           | Ok ls => Forall2 (fun ka la => la.2 = ka.2 ∧ vars s !! ka.1 = Some la.1) kv ls
+           | Err e => e ≠ ENeedsReordering
+           end.
+Proof.
+  revert r s'. induction kv as [|[k a] kv IH]; intros r s'.
+  - cbn. intros [= <- <-]. split; [done|constructor].
+  - cbn [mapM]. destruct (map_key true false k s) as [r1 s1] eqn:E1.
+    apply map_key_name_inv in E1 as E1'. destruct E1' as [-> H1].
+    destruct r1 as [l|e]; cycle 1.
+    { rewrite bind_assoc, (bind_err _ _ _ _ _ E1). by intros [= <- <-]. }
+    rewrite bind_assoc, (bind_ok _ _ _ _ _ E1). cbn [bind ret].
+    destruct (mapM (fun '(k, a) => l <- map_key true false k ;; ret (l, a)) kv s)
+      as [r2 s2] eqn:E2. destruct (IH _ _ eq_refl) as [-> H2].
+    destruct r2 as [ls|e].
+    + rewrite (bind_ok _ _ _ _ _ E2). intros [= <- <-]. split; [done|]. by constructor.
+    + rewrite (bind_err _ _ _ _ _ E2). by intros [= <- <-].
+Qed.
+
+Lemma mtld_name_inv s (kv : list (nat * bool)) r s' :
+  map_to_level_dict true kv s = (r, s') →
+  match r with
+  | Ok lv => (∀ l b, lv !! l = Some b → ∃ k, (k, b) ∈ kv ∧ vars s !! k = Some l) ∧
+             (∀ k b, (k, b) ∈ kv → ∃ l, vars s !! k = Some l ∧ is_Some (lv !! l))
+  | Err e => e ≠ ENeedsReordering
+  end.
+Proof.
+  unfold map_to_level_dict. destruct kv as [|[k a] rest].
+  { intros [= <- <-]. split.
+    - intros l b Hl. by rewrite lookup_empty in Hl.
+    - intros k b Hin. by apply elem_of_nil in Hin. }
+  rewrite (bind_ok _ _ s tt s) by done.
+  destruct (map_key true true k s) as [r1 s1] eqn:E1.
+  apply map_key_name_inv in E1 as E1'. destruct E1' as [-> H1].
+  destruct r1 as [l|e]; cycle 1.
+  { rewrite (bind_err _ _ _ _ _ E1). by intros [= <- <-]. }
+  rewrite (bind_ok _ _ _ _ _ E1).
+  destruct (mapM (fun '(k, a) => l <- map_key true false k ;; ret (l, a)) rest s)
+    as [r2 s2] eqn:E2.
+  apply mapM_map_key_inv in E2 as E2'. destruct E2' as [-> H2].
+  destruct r2 as [ls|e]; cycle 1.
+  { rewrite (bind_err _ _ _ _ _ E2). by intros [= <- <-]. }
+  rewrite (bind_ok _ _ _ _ _ E2).
+  intros [= <- <-].
+  assert (HF : Forall2 (fun ka la => la.2 = ka.2 ∧ vars s !! ka.1 = Some la.1)
+                 ((k, a) :: rest) ((l, a) :: ls)) by (by constructor).
+  split.
+  - intros l' b Hl. apply elem_of_list_to_map_2 in Hl. rewrite elem_of_reverse in Hl.
+    apply elem_of_list_lookup in Hl as [i Hi].
+    destruct (Forall2_lookup_r _ _ _ _ _ HF Hi) as ([k' a']&Hk&E&Hv). cbn in E, Hv. subst.
+    exists k'. split; [|done]. by eapply elem_of_list_lookup_2.
+  - intros k' b Hin. apply elem_of_list_lookup in Hin as [i Hi].
+    destruct (Forall2_lookup_l _ _ _ _ _ HF Hi) as ([l' a']&Hl&E&Hv). cbn in E, Hv. subst.
+    exists l'. split; [done|]. apply elem_of_dom. rewrite dom_list_to_map_L.
+    apply elem_of_list_to_set. rewrite fmap_reverse, elem_of_reverse.
+    apply elem_of_list_fmap. exists (l', b). split; [done|]. by eapply elem_of_list_lookup_2.
+Qed.
+
+(** *** [cofactor] by name with a successful outcome: the level bound too *)
+Lemma cofactor_ok_inv s u values x s' :
+  Inv s → valid s u → last_len s = None →
+  cofactor u true values s = (Ok x, s') →
+  Inv s' ∧ extends s s' ∧ last_len s' = None ∧ valid s' x ∧ lvl_of s u ≤ lvl_of s' x ∧
+  ∃ lv, (∀ l b, lv !! l = Some b → ∃ k, (k, b) ∈ values ∧ vars s !! k = Some l) ∧
+        (∀ k b, (k, b) ∈ values → ∃ l, vars s !! k = Some l ∧ is_Some (lv !! l)) ∧
+        ∀ a, D s' x a = D s u (override lv a).
+Proof.
+  intros HI Hu Hoff Hrun. unfold cofactor in Hrun.
+  apply try_to_reorder_inert in Hrun as (r1&s1&Hrun&Hcase).
+  set (s0 := s <| rctx := true |>) in *.
+  assert (HI0 : Inv s0) by (by apply Inv_rctx).
+  assert (Hu0 : valid s0 u) by done.
+  destruct (map_to_level_dict true values s0) as [rl sl] eqn:Hmap.
+  pose proof (map_to_level_dict_state _ _ _ _ _ Hmap) as ->.
+  apply mtld_name_inv in Hmap as Hlv.
+  destruct rl as [lv|e]; cycle 1.
+  { rewrite (bind_err _ _ _ _ _ Hmap) in Hrun. injection Hrun as <- <-.
+    destruct Hcase as [[[= ->] _]|[[=] _]]. done. }
+  rewrite (bind_ok _ _ _ _ _ Hmap) in Hrun. cbn [bind get] in Hrun.
+  rewrite (proj2 (mem_valid s0 u) Hu0) in Hrun. cbn [ensure bind ret] in Hrun.
+  destruct (cofactor_rec (S (S (nvars s0))) u (sorted_levels (dom lv)) lv ∅ s0)
+    as [rr s2] eqn:Erec.
+  pose proof Erec as Erec'.
+  apply cofactor_rec_aux in Erec' as (HI2&He2&Hf2&Hr);
+    [|done|done| |apply cache_ok_empty|lia].
+  2:{ intros k Hk _. apply elem_of_sorted_levels. by apply elem_of_dom. }
+  destruct rr as [[x' c]|e]; cycle 1.
+  { exfalso. destruct Hr as [_ [l Hl]]. change (last_len s0) with (last_len s) in Hl. congruence. }
+  rewrite (bind_ok _ _ _ _ _ Erec) in Hrun. cbn [fst ret] in Hrun.
+  injection Hrun as <- <-.
+  destruct Hcase as [[[=] _]|[[= <-] ->]].
+  destruct Hr as (Hxv&Hxl&_&HxD). destruct Hlv as [Hlv1 Hlv2].
+  split_and!; [by apply Inv_rctx|done| |done|exact Hxl|].
+  - destruct Hf2 as (E&_). cbn. rewrite E. exact Hoff.
+  - exists lv. split_and!; [exact Hlv1|exact Hlv2|].
+    intros a. rewrite D_rctx, HxD. unfold s0. by rewrite D_rctx.
+Qed.
+
+(** a stored node's function depends on the variable of its own level *)
+Lemma top_level_dep s z : Inv s → valid s z → lvl_of s z < nvars s →
+  (∀ a b, D s z (upd a (lvl_of s z) b) = D s z a) → False.
+Proof.
+  intros HI Hz Hl Hind.
+  destruct (node_cases s HI z Hz) as [[_ ?]|(t&Ht&Hn&Hlo&Hlt&?&Hvl&Hvh&?&Hll&Hlh&Hne)]; [lia|].
+  apply Hne. apply (canonical_levels s HI); try done. intros a.
+  pose proof (Hind a true) as Q1. pose proof (Hind a false) as Q0.
+  rewrite Hlt in Q1, Q0.
+  rewrite (D_step s HI z (upd a (t_lvl t) true) t Hz Ht Hn) in Q1.
+  rewrite (D_step s HI z (upd a (t_lvl t) false) t Hz Ht Hn) in Q0.
+  rewrite (D_step s HI z a t Hz Ht Hn) in Q1, Q0.
+  rewrite upd_same in Q1, Q0.
+  rewrite (D_upd_above s HI (t_hi t)) in Q1 by first [done|lia].
+  rewrite (D_upd_above s HI (t_lo t)) in Q0 by first [done|lia].
+  destruct (a (t_lvl t)), (D s (t_lo t) a), (D s (t_hi t) a), (bool_decide (z < 0)%Z); done.
+Qed.
+
+(** *** the correspondence between integer and bit assignments *)
+(** integer level of a BDD level ([length dvars] when it carries no bit) *)
+Definition ilvl (dvars : dvars_t) (s : st) (l : nat) : nat :=
+  match lvl2var s !! l with
+  | Some b => match Mdd.assoc (b2v dvars) b with
+              | Some var => match Mdd.assoc dvars var with
+                            | Some (j, _) => j
+                            | None => length dvars
+                            end
+              | None => length dvars
+              end
+  | None => length dvars
+  end.
+Definition nilvl (dvars : dvars_t) (s : st) (u : positive) : nat :=
+  ilvl dvars s (lvl_of s (Z.pos u)).
+
+(** the Boolean assignment of the BDD levels induced by an assignment [I] of
+    the integer levels: the bit at BDD level [l] gets the value that
+    [_enumerate_integer] gives it in the dict number [I j] of its integer
+    variable (level [j]) *)
+Definition bits_of (dvars : dvars_t) (s : st) (I : nat → nat) : nat → bool := fun l =>
+  match lvl2var s !! l with
+  | Some b => match Mdd.assoc (b2v dvars) b with
+     | Some var => match Mdd.assoc dvars var with
+        | Some (j, bits) =>
+            default false (enumerate_integer bits !! (I j) ≫= fun d => Mdd.assoc d b)
+        | None => false
+        end
+     | None => false
+     end
+  | None => false
+  end.
+
+Record b2m_wf (dvars : dvars_t) (s : st) : Prop := {
+  bw_levels : dvars_ok (List.map (fun x : nat * (nat * list nat) =>
+                                    (x.1, (x.2.1, 2 ^ length x.2.2))) dvars);
+  bw_lt : ∀ v j bits, (v, (j, bits)) ∈ dvars → j < length dvars;
+  bw_bits : ∀ v j bits, (v, (j, bits)) ∈ dvars → NoDup bits;
+  bw_owner : ∀ b v1 v2, (b, v1) ∈ b2v dvars → (b, v2) ∈ b2v dvars → v1 = v2;
+  (* zones: the integer level is monotone in the BDD level *)
+  bw_mono : ∀ l l', l ≤ l' → l' < nvars s → ilvl dvars s l ≤ ilvl dvars s l';
+}.
+
+Lemma map_fst_mdd (dvars : dvars_t) :
+  (List.map (fun x : nat * (nat * list nat) => (x.1, (x.2.1, 2 ^ length x.2.2))) dvars).*1
+  = dvars.*1.
+Proof. induction dvars as [|[v [j bits]] l IH]; [done|]. cbn. by rewrite <- IH. Qed.
+
+Section b2m.
+Context (dvars : dvars_t) (s0 : st) (HI0 : Inv s0) (Hwf : b2m_wf dvars s0).
+
+Lemma bw_names : NoDup (dvars.*1).
+Proof. destruct (bw_levels _ _ Hwf) as (H&_). by rewrite map_fst_mdd in H. Qed.
+
+Lemma dvars_assoc v j bits : (v, (j, bits)) ∈ dvars → Mdd.assoc dvars v = Some (j, bits).
+Proof. intros H. rewrite assoc_alist. apply alist_get_nodup; [apply bw_names|done]. Qed.
+Lemma dvars_assoc_inv v j bits : Mdd.assoc dvars v = Some (j, bits) → (v, (j, bits)) ∈ dvars.
+Proof. rewrite assoc_alist. apply alist_get_elem. Qed.
+
+Lemma b2v_assoc b v : (b, v) ∈ b2v dvars → Mdd.assoc (b2v dvars) b = Some v.
+Proof.
+  intros H. rewrite assoc_alist.
+  destruct (alist_get (b2v dvars) b) as [v'|] eqn:E.
+  - apply alist_get_elem in E. f_equal. by apply (bw_owner _ _ Hwf b).
+  - apply alist_get_None in E. exfalso. apply E. apply elem_of_list_fmap. by exists (b, v).
+Qed.
+
+Lemma mdd0_vars v j bits : (v, (j, bits)) ∈ dvars →
+  mvars (b2m_mdd0 dvars) !! v = Some (j, 2 ^ length bits).
+Proof.
+  intros Hin. unfold b2m_mdd0. cbn. apply elem_of_list_to_map.
+  - rewrite map_fst_mdd. apply bw_names.
+  - apply elem_of_list_In, in_map_iff. exists (v, (j, bits)). split; [done|].
+    by apply elem_of_list_In.
+Qed.
+
+Lemma MInv_mdd0 : MInv (b2m_mdd0 dvars).
+Proof. apply mdd_init_MInv, Hwf. Qed.
+
+(** two variables at the same integer level are the same *)
+Lemma dvars_level_inj v1 v2 j b1 b2 :
+  (v1, (j, b1)) ∈ dvars → (v2, (j, b2)) ∈ dvars → v1 = v2.
+Proof.
+  intros H1 H2.
+  apply (minv_vars _ MInv_mdd0 v1 v2 j (2 ^ length b1) (2 ^ length b2)); by apply mdd0_vars.
+Qed.
+
+(** the integer level of a level that carries a bit of the variable at [j] *)
+Lemma ilvl_bit l b v j bits :
+  lvl2var s0 !! l = Some b → (v, (j, bits)) ∈ dvars → b ∈ bits → ilvl dvars s0 l = j.
+Proof.
+  intros Hl Hv Hb. unfold ilvl. rewrite Hl.
+  rewrite (b2v_assoc b v) by (apply b2v_elem; eauto). by rewrite (dvars_assoc v j bits Hv).
+Qed.
+(** conversely *)
+Lemma ilvl_inv l j : ilvl dvars s0 l = j → j < length dvars →
+  ∃ b v bits, lvl2var s0 !! l = Some b ∧ (v, (j, bits)) ∈ dvars ∧ b ∈ bits.
+Proof.
+  unfold ilvl. intros E Hj.
+  destruct (lvl2var s0 !! l) as [b|]; [|lia].
+  destruct (Mdd.assoc (b2v dvars) b) as [v|] eqn:Eb; [|lia].
+  destruct (Mdd.assoc dvars v) as [[j' bits]|] eqn:Ev; [|lia]. subst j'.
+  exists b, v, bits. split; [done|]. apply dvars_assoc_inv in Ev. split; [done|].
+  rewrite assoc_alist in Eb. apply alist_get_elem, b2v_elem in Eb as (j2&bits2&Hin2&Hb).
+  pose proof (dvars_assoc _ _ _ Hin2) as E2. rewrite (dvars_assoc _ _ _ Ev) in E2.
+  by injection E2 as -> ->.
+Qed.
+
+
+(** *** [_enumerate_integer] *)
+Lemma bitvectors_length n : length (bitvectors n) = 2 ^ n.
+Proof.
+  induction n as [|n IH]; [done|]. cbn [bitvectors Nat.pow].
+  rewrite app_length, !fmap_length, IH. lia.
+Qed.
+Lemma bitvectors_elem_length n bv : bv ∈ bitvectors n → length bv = n.
+Proof.
+  revert bv. induction n as [|n IH]; intros bv; cbn [bitvectors].
+  - intros ->%elem_of_list_singleton. done.
+  - rewrite elem_of_app, !elem_of_list_fmap. intros [(l&->&Hl)|(l&->&Hl)]; cbn; f_equal; by apply IH.
+Qed.
+Lemma enumerate_integer_length bits : length (enumerate_integer bits) = 2 ^ length bits.
+Proof. unfold enumerate_integer. by rewrite fmap_length, bitvectors_length. Qed.
+Lemma enumerate_integer_fst bits k d : enumerate_integer bits !! k = Some d → d.*1 = bits.
+Proof.
+  unfold enumerate_integer. rewrite list_lookup_fmap.
+  destruct (bitvectors (length bits) !! k) as [bv|] eqn:E; [|done]. intros [= <-].
+  apply fst_zip. rewrite reverse_length.
+  by rewrite (bitvectors_elem_length _ _ (elem_of_list_lookup_2 _ _ _ E)).
+Qed.
+
+(** *** the cofactors of [u] by every value of its integer variable *)
+Lemma b2m_cofactors u : ∀ ds sb zs sb',
+  Inv sb → extends s0 sb → last_len sb = None → valid s0 (Z.pos u) →
+  mapM (fun d => cofactor (Z.pos u) true d) ds sb = (Ok zs, sb') →
+  Inv sb' ∧ extends sb sb' ∧ last_len sb' = None ∧
+  Forall2 (fun d z => valid sb' z ∧ lvl_of s0 (Z.pos u) ≤ lvl_of sb' z ∧
+     ∃ lv, (∀ l b, lv !! l = Some b → ∃ k, (k, b) ∈ d ∧ vars s0 !! k = Some l) ∧
+           (∀ k b, (k, b) ∈ d → ∃ l, vars s0 !! k = Some l ∧ is_Some (lv !! l)) ∧
+           ∀ a, D sb' z a = D s0 (Z.pos u) (override lv a)) ds zs.
+Proof.
+  induction ds as [|d ds IH]; intros sb zs sb' HI He Hoff Hu.
+  - cbn. intros [= <- <-]. split_and!; done.
+  - cbn [mapM].
+    destruct (cofactor (Z.pos u) true d sb) as [r1 sb1] eqn:E1.
+    destruct r1 as [z|e]; [|rewrite (bind_err _ _ _ _ _ E1); by intros [= ]].
+    rewrite (bind_ok _ _ _ _ _ E1).
+    assert (Hub : valid sb (Z.pos u)) by (by apply (valid_extends s0 sb)).
+    destruct (cofactor_ok_inv sb (Z.pos u) d z sb1 HI Hub Hoff E1)
+      as (HI1&He1&Hoff1&Hz&Hlz&lv&Hlv1&Hlv2&HD).
+    assert (He01 : extends s0 sb1) by (by etrans).
+    destruct (mapM (fun d => cofactor (Z.pos u) true d) ds sb1) as [r2 sb2] eqn:E2.
+    destruct r2 as [zs'|e]; [|rewrite (bind_err _ _ _ _ _ E2); by intros [= ]].
+    rewrite (bind_ok _ _ _ _ _ E2). cbn [ret]. intros [= <- <-].
+    destruct (IH sb1 zs' sb2 HI1 He01 Hoff1 Hu E2) as (HI2&He2&Hoff2&HF).
+    split_and!; [done|by etrans|done|]. constructor; [|done].
+    split_and!.
+    + by apply (valid_extends sb1 sb2).
+    + rewrite (lvl_extends sb1 sb2) by done. by rewrite <- (lvl_extends s0 sb).
+    + exists lv. pose proof He as (_&Ev&_). split_and!.
+      * intros l b Hl. destruct (Hlv1 l b Hl) as (k&?&?). exists k. by rewrite Ev.
+      * intros k b Hk. destruct (Hlv2 k b Hk) as (l&?&?). exists l. by rewrite Ev.
+      * intros a. rewrite (D_extends sb1 sb2) by done. rewrite HD.
+        by apply (D_extends s0 sb).
+Qed.
+
+(** *** the successors translated through [umap] *)
+Lemma b2m_int_succ (umap : list (positive * Z)) : ∀ zs (sb : st) xs sb',
+  mapM (fun z : Z => x <- of_opt EKey (Mdd.assoc umap (absn z)) ;;
+                     ret (if decide (0 < z)%Z then x else (- x)%Z)) zs sb = (Ok xs, sb') →
+  sb' = sb ∧
+  Forall2 (fun z x => ∃ x0, (absn z, x0) ∈ umap ∧
+                            x = if decide (0 < z)%Z then x0 else (- x0)%Z) zs xs.
+Proof.
+  set (f := fun z : Z => x <- of_opt EKey (Mdd.assoc umap (absn z)) ;;
+                     ret (if decide (0 < z)%Z then x else (- x)%Z)).
+  induction zs as [|z zs IH]; intros sb xs sb'.
+  - cbn. intros [= <- <-]. split; [done|constructor].
+  - cbn [mapM].
+    destruct (Mdd.assoc umap (absn z)) as [x0|] eqn:Ez.
+    + assert (Hf : f z sb = (Ok (if decide (0 < z)%Z then x0 else (- x0)%Z), sb))
+        by (unfold f; by rewrite Ez).
+      rewrite (bind_ok _ _ _ _ _ Hf).
+      destruct (mapM f zs sb) as [r2 sb2] eqn:E2.
+      destruct r2 as [xs'|e]; [|rewrite (bind_err _ _ _ _ _ E2); by intros [= ]].
+      rewrite (bind_ok _ _ _ _ _ E2). intros [= <- <-].
+      destruct (IH _ _ _ E2) as [-> HF]. split; [done|].
+      constructor; [|done]. exists x0. split; [|done].
+      rewrite assoc_alist in Ez. by apply alist_get_elem.
+    + assert (Hf : f z sb = (Err EKey, sb)) by (unfold f; by rewrite Ez).
+      rewrite (bind_err _ _ _ _ _ Hf). by intros [= ].
+Qed.
+
+(** *** the loop invariant of the conversion *)
+Record B2M (sb : st) (mdd : mst) (umap : list (positive * Z)) : Prop := {
+  b_inv : Inv sb;
+  b_ext : extends s0 sb;
+  b_off : last_len sb = None;
+  b_minv : MInv mdd;
+  b_mext : mextends (b2m_mdd0 dvars) mdd;
+  b_umap : ∀ u x, (u, x) ∈ umap →
+     valid s0 (Z.pos u) ∧ mvalid mdd x ∧ nilvl dvars s0 u ≤ mlvl_of mdd x ∧
+     ∀ I, minrange (b2m_mdd0 dvars) I →
+          MD mdd x I = D s0 (Z.pos u) (bits_of dvars s0 I);
+}.
+
+Lemma lvl_of_absn s z : lvl_of s (Z.pos (absn z)) = lvl_of s z.
+Proof. done. Qed.
+Lemma valid_absn s z : z ≠ 0%Z → valid s (Z.pos (absn z)) ↔ valid s z.
+Proof. intros Hz. unfold valid. rewrite absn_pos. naive_solver. Qed.
+
+(** one successor of the new MDD node *)
+Lemma b2m_child sb mdd umap sb1 u t bit var j bits k d z x :
+  B2M sb mdd umap → Inv sb1 → extends s0 sb1 →
+  succ s0 !! u = Some t → lvl2var s0 !! t_lvl t = Some bit →
+  (var, (j, bits)) ∈ dvars → bit ∈ bits →
+  enumerate_integer bits !! k = Some d →
+  valid sb1 z → t_lvl t ≤ lvl_of sb1 z →
+  (∃ lv, (∀ l b, lv !! l = Some b → ∃ key, (key, b) ∈ d ∧ vars s0 !! key = Some l) ∧
+         (∀ key b, (key, b) ∈ d → ∃ l, vars s0 !! key = Some l ∧ is_Some (lv !! l)) ∧
+         ∀ a, D sb1 z a = D s0 (Z.pos u) (override lv a)) →
+  (∃ x0, (absn z, x0) ∈ umap ∧ x = if decide (0 < z)%Z then x0 else (- x0)%Z) →
+  mvalid mdd x ∧ j < mlvl_of mdd x ∧
+  ∀ I, minrange (b2m_mdd0 dvars) I → I j = k →
+       MD mdd x I = D s0 (Z.pos u) (bits_of dvars s0 I).
+Proof.
+  intros HB HI1 He1 Hu Hbit Hvar Hbin Hd Hz Hlz (lv&Hlv1&Hlv2&HD) (x0&Hx0&Ex).
+  destruct (b_umap _ _ _ HB _ _ Hx0) as (Hvz0&Hvx0&Hlx0&HDx0).
+  pose proof (b_minv _ _ _ HB) as HM.
+  assert (Hz0 : z ≠ 0%Z) by apply Hz.
+  assert (Hvz : valid s0 z) by (by apply valid_absn).
+  assert (Elz : lvl_of sb1 z = lvl_of s0 z) by (by apply lvl_extends).
+  assert (Hdfst : d.*1 = bits) by (by eapply enumerate_integer_fst).
+  assert (Hnv1 : nvars sb1 = nvars s0) by (by apply extends_nvars).
+  (* the level of the cofactor is below the zone of [var] *)
+  assert (Hjz : j < nilvl dvars s0 (absn z)).
+  { unfold nilvl. rewrite lvl_of_absn. set (lz := lvl_of s0 z) in *.
+    destruct (decide (lz < nvars s0)) as [Hlt|Hge]; cycle 1.
+    { unfold ilvl. assert (lvl2var s0 !! lz = None) as ->.
+      { apply eq_None_not_Some. intros H. apply (inv_lvls _ HI0) in H. lia. }
+      by apply (bw_lt _ _ Hwf var j bits). }
+    pose proof (bw_mono _ _ Hwf (t_lvl t) lz ltac:(lia) Hlt) as Hmono.
+    rewrite (ilvl_bit (t_lvl t) bit var j bits Hbit Hvar Hbin) in Hmono.
+    destruct (decide (ilvl dvars s0 lz = j)) as [E|]; [|lia]. exfalso.
+    destruct (ilvl_inv lz j E (bw_lt _ _ Hwf var j bits Hvar)) as (b'&v'&bits'&Hb'&Hv'&Hin').
+    pose proof (dvars_level_inj _ _ _ _ _ Hv' Hvar) as ->.
+    pose proof (dvars_assoc _ _ _ Hv') as E1. rewrite (dvars_assoc _ _ _ Hvar) in E1.
+    injection E1 as <-.
+    assert (b' ∈ d.*1) as Hbd by (by rewrite Hdfst).
+    apply elem_of_list_fmap in Hbd as ([key bv]&->&Hkd). cbn in Hb'.
+    destruct (Hlv2 key bv Hkd) as (l&Hl&Hsome).
+    assert (l = lz) as -> by (apply (inv_vars _ HI0) in Hb'; congruence).
+    apply (top_level_dep sb1 z HI1 Hz); [rewrite Elz, Hnv1; exact Hlt|].
+    intros a b. rewrite !HD. apply (D_indep s0 HI0); [split; [done|]; rewrite absn_pos; by eexists|].
+    intros i _. unfold override. rewrite Elz.
+    destruct (decide (i = lz)) as [->|Hne].
+    - destruct Hsome as [bb Hbb]. by rewrite Hbb.
+    - rewrite upd_other by done. done. }
+  assert (Hxprop : mvalid mdd x ∧ mlvl_of mdd x = mlvl_of mdd x0 ∧
+                   ∀ I, MD mdd x I = xorb (negb (bool_decide (0 < z)%Z)) (MD mdd x0 I)).
+  { subst x. destruct (decide (0 < z)%Z).
+    - rewrite bool_decide_eq_true_2 by done. split_and!; try done.
+      intros I. by destruct (MD mdd x0 I).
+    - rewrite bool_decide_eq_false_2 by done.
+      split_and!; [by apply mvalid_neg|by rewrite mlvl_neg|].
+      intros I. by rewrite MD_neg. }
+  destruct Hxprop as (Hvx&Elx&HDx). split; [done|]. split; [lia|].
+  intros I Hr Hk. rewrite HDx, (HDx0 I Hr).
+  assert (HDz : D s0 z (bits_of dvars s0 I) =
+                xorb (negb (bool_decide (0 < z)%Z)) (D s0 (Z.pos (absn z)) (bits_of dvars s0 I))).
+  { destruct (decide (0 < z)%Z).
+    - rewrite bool_decide_eq_true_2 by done. cbn [negb xorb].
+      replace (Z.pos (absn z)) with z by (unfold absn; lia). by destruct (D s0 z _).
+    - rewrite bool_decide_eq_false_2 by done. cbn [negb xorb].
+      replace z with (- Z.pos (absn z))%Z at 1 by (unfold absn; lia).
+      rewrite D_neg by done. by destruct (D s0 _ _). }
+  rewrite <- HDz. rewrite <- (D_extends s0 sb1) by done. rewrite HD.
+  apply (D_indep s0 HI0); [split; [done|]; rewrite absn_pos; by eexists|].
+  intros l _. unfold override.
+  destruct (lv !! l) as [b|] eqn:El; [|done].
+  destruct (Hlv1 l b El) as (key&Hkd&Hkl).
+  assert (key ∈ bits) as Hkb.
+  { rewrite <- Hdfst. apply elem_of_list_fmap. by exists (key, b). }
+  unfold bits_of. apply (inv_vars _ HI0) in Hkl. rewrite Hkl.
+  rewrite (b2v_assoc key var) by (apply b2v_elem; eauto).
+  rewrite (dvars_assoc var j bits Hvar). rewrite Hk, Hd. cbn.
+  rewrite assoc_alist, (alist_get_nodup d key b); [done| |done].
+  rewrite Hdfst. by apply (bw_bits _ _ Hwf var j bits).
+Qed.
+
+(** *** one iteration of the final loop *)
+Lemma b2m_step_spec keep sb mdd umap u r sb' :
+  B2M sb mdd umap → u ∈ dom (succ s0) →
+  b2m_step dvars keep (mdd, umap) u sb = (r, sb') →
+  match r with
+  | Ok (mdd', umap') => B2M sb' mdd' umap'
+  | Err _ => True
+  end.
+Proof.
+  intros HB Hud. unfold b2m_step.
+  destruct (decide (u ∉ keep)) as [|_]; [by intros [= <- <-]|].
+  pose proof (b_inv _ _ _ HB) as HIb. pose proof (b_ext _ _ _ HB) as Heb.
+  pose proof (b_minv _ _ _ HB) as HM. pose proof (b_mext _ _ _ HB) as HMe.
+  apply elem_of_dom in Hud as [t Hu].
+  assert (Hub : succ sb !! u = Some t) by (apply (lookup_weaken _ _ _ _ Hu), Heb).
+  rewrite (bind_ok _ _ _ _ _ (getsucc_ok sb u t Hub)).
+  assert (El2v : lvl2var sb = lvl2var s0) by (symmetry; apply Heb).
+  destruct (lvl2var s0 !! t_lvl t) as [bit|] eqn:Hbit; cycle 1.
+  { assert (Hv : var_at_level (t_lvl t) sb = (Err EValue, sb))
+      by (unfold var_at_level; cbn [bind get]; by rewrite El2v, Hbit).
+    rewrite (bind_err _ _ _ _ _ Hv). by intros [= <- <-]. }
+  assert (Hv : var_at_level (t_lvl t) sb = (Ok bit, sb))
+    by (unfold var_at_level; cbn [bind get]; by rewrite El2v, Hbit).
+  rewrite (bind_ok _ _ _ _ _ Hv).
+  destruct (Mdd.assoc (b2v dvars) bit) as [var|] eqn:Hvar0; cycle 1.
+  { rewrite (bind_err _ _ sb EKey sb) by done. by intros [= <- <-]. }
+  rewrite (bind_ok _ _ sb var sb) by done.
+  destruct (Mdd.assoc dvars var) as [[j bits]|] eqn:Hvar1; cycle 1.
+  { rewrite (bind_err _ _ sb EKey sb) by done. by intros [= <- <-]. }
+  rewrite (bind_ok _ _ sb (j, bits) sb) by done.
+  apply dvars_assoc_inv in Hvar1 as Hvar.
+  assert (Hbin : bit ∈ bits).
+  { rewrite assoc_alist in Hvar0. apply alist_get_elem, b2v_elem in Hvar0 as (j2&bits2&Hin2&Hb).
+    pose proof (dvars_assoc _ _ _ Hin2) as E2. rewrite Hvar1 in E2. by injection E2 as -> ->. }
+  assert (Hvu : valid s0 (Z.pos u)) by (split; [done|]; rewrite absn_pos; by eexists).
+  assert (Hlu : lvl_of s0 (Z.pos u) = t_lvl t) by (unfold lvl_of; by rewrite absn_pos, Hu).
+  (* the cofactors *)
+  destruct (mapM (fun d => cofactor (Z.pos u) true d) (enumerate_integer bits) sb)
+    as [rz sb1] eqn:Ez.
+  destruct rz as [zs|e]; [|rewrite (bind_err _ _ _ _ _ Ez); by intros [= <- <-]].
+  rewrite (bind_ok _ _ _ _ _ Ez).
+  destruct (b2m_cofactors u _ sb zs sb1 HIb Heb (b_off _ _ _ HB) Hvu Ez) as (HI1&He1&Hoff1&HFz).
+  assert (He01 : extends s0 sb1) by (by etrans).
+  (* their images *)
+  destruct (mapM (fun z : Z => x <- of_opt EKey (Mdd.assoc umap (absn z)) ;;
+                     ret (if decide (0 < z)%Z then x else (- x)%Z)) zs sb1)
+    as [rx sb2] eqn:Ex.
+  destruct rx as [xs|e]; [|rewrite (bind_err _ _ _ _ _ Ex); by intros [= <- <-]].
+  rewrite (bind_ok _ _ _ _ _ Ex).
+  destruct (b2m_int_succ umap zs sb1 xs sb2 Ex) as [-> HFx].
+  (* the node *)
+  destruct (m_find_or_add j xs mdd) as [[x|e] mdd'] eqn:Ef; cbn [ret raise];
+    [|by intros [= <- <-]].
+  intros [= <- <-].
+  assert (Hlen_z : length zs = 2 ^ length bits).
+  { rewrite <- (Forall2_length _ _ _ HFz). apply enumerate_integer_length. }
+  assert (Hlen_x : length xs = 2 ^ length bits).
+  { by rewrite <- (Forall2_length _ _ _ HFx). }
+  assert (Hkid : ∀ k x', xs !! k = Some x' →
+     mvalid mdd x' ∧ j < mlvl_of mdd x' ∧
+     ∀ I, minrange (b2m_mdd0 dvars) I → I j = k →
+          MD mdd x' I = D s0 (Z.pos u) (bits_of dvars s0 I)).
+  { intros k x' Hk.
+    destruct (Forall2_lookup_r _ _ _ _ _ HFx Hk) as (z&Hzk&Hzx).
+    destruct (Forall2_lookup_r _ _ _ _ _ HFz Hzk) as (d&Hdk&Hvz&Hlz&Hlv).
+    apply (b2m_child sb mdd umap sb1 u t bit var j bits k d z x'); try done.
+    by rewrite <- Hlu. }
+  pose proof Ef as Ef'.
+  apply m_find_or_add_spec in Ef' as (HM'&HMe'&_&Hx); [|done| | |].
+  2:{ intros ->. cbn in Hlen_x. pose proof (Nat.pow_nonzero 2 (length bits)). lia. }
+  2:{ exists var. destruct HMe as [_ <-]. rewrite Hlen_x. by apply mdd0_vars. }
+  2:{ intros x' [k Hk]%elem_of_list_lookup. destruct (Hkid k x' Hk) as (?&?&_). by split. }
+  destruct Hx as (Hvx&Hlx&HDx).
+  split; try done.
+  - by etrans.
+  - intros u' x' Hin. apply elem_of_app in Hin as [Hin|Hin].
+    + destruct (b_umap _ _ _ HB _ _ Hin) as (?&?&?&HD).
+      split_and!; [done|by apply (mvalid_extends mdd mdd')|by rewrite (mlvl_extends mdd mdd')|].
+      intros I Hr. rewrite (MD_extends mdd mdd') by done. by apply HD.
+    + apply elem_of_list_singleton in Hin as [= -> ->].
+      split_and!; [done|done| |].
+      * unfold nilvl. rewrite Hlu, (ilvl_bit (t_lvl t) bit var j bits Hbit Hvar Hbin). done.
+      * intros I Hr. rewrite HDx.
+        assert (I j < length xs) as HIj.
+        { rewrite Hlen_x. apply (Hr var j). by apply mdd0_vars. }
+        destruct (lookup_lt_is_Some_2 xs (I j) HIj) as [xk Hxk].
+        rewrite (msel_lookup xs (I j) xk Hxk).
+        destruct (Hkid (I j) xk Hxk) as (_&_&HDk). by apply HDk.
+Qed.
+
+(** the whole loop *)
+Lemma b2m_fold_spec keep : ∀ order sb mdd umap r sb',
+  B2M sb mdd umap → (∀ u, u ∈ order → u ∈ dom (succ s0)) →
+  foldM (b2m_step dvars keep) (mdd, umap) order sb = (r, sb') →
+  match r with
+  | Ok (mdd', umap') => B2M sb' mdd' umap'
+  | Err _ => True
+  end.
+Proof.
+  induction order as [|u order IH]; intros sb mdd umap r sb' HB Hord.
+  - cbn. by intros [= <- <-].
+  - cbn [foldM].
+    destruct (b2m_step dvars keep (mdd, umap) u sb) as [r1 sb1] eqn:E1.
+    pose proof (b2m_step_spec keep sb mdd umap u r1 sb1 HB (Hord u ltac:(left)) E1) as H1.
+    destruct r1 as [[mdd1 umap1]|e]; [|rewrite (bind_err _ _ _ _ _ E1); by intros [= <- <-]].
+    rewrite (bind_ok _ _ _ _ _ E1). apply IH; [done|]. intros; apply Hord; by right.
+Qed.
+
+Lemma B2M_start : last_len s0 = None → B2M s0 (b2m_mdd0 dvars) [(1%positive, 1%Z)].
+Proof.
+  intros Hoff. split; try done.
+  - apply MInv_mdd0.
+  - intros u x [= -> ->]%elem_of_list_singleton.
+    split_and!; [by apply valid_1|by apply mvalid_1, MInv_mdd0| |].
+    + rewrite (mlvl_term _ MInv_mdd0 1) by done. unfold nilvl, ilvl.
+      rewrite (lvl_term s0 HI0 1) by done.
+      assert (lvl2var s0 !! nvars s0 = None) as ->.
+      { apply eq_None_not_Some. intros H. apply (inv_lvls _ HI0) in H. lia. }
+      unfold mnvars, b2m_mdd0. cbn.
+      rewrite <- size_dom, dom_list_to_map_L, size_list_to_set, fmap_length, map_length; [done|].
+      rewrite map_fst_mdd. apply bw_names.
+    + intros I _. by rewrite (MD_1 _ MInv_mdd0), D_1.
+Qed.
+End b2m.
+
+(** *** the selection of the zone-entry nodes only reads the manager *)
+Lemma pure_of_opt {A} e (o : option A) : pure (of_opt e o).
+Proof. destruct o; [apply pure_ret|apply pure_raise]. Qed.
+Lemma pure_foldM {A B} (f : B → A → MS B) :
+  (∀ b a, pure (f b a)) → ∀ l b, pure (foldM f b l).
+Proof.
+  intros Hf. induction l as [|a l IH]; intros b; cbn [foldM]; [apply pure_ret|].
+  apply pure_bind; [apply Hf|]. intros b'. apply IH.
+Qed.
+Lemma pure_ref u : pure (ref u).
+Proof.
+  unfold ref. case_decide; [apply pure_raise|]. intros s r s'. unfold getref.
+  by destruct (refc s !! absn u); intros [= <- <-].
+Qed.
+Lemma pure_var_at_level l : pure (var_at_level l).
+Proof. unfold var_at_level. apply pure_bind; [apply pure_get|]. intros s. apply pure_of_opt. Qed.
+
+Lemma pure_b2m_keep dvars b2s s : pure (b2m_keep dvars b2s s).
+Proof.
+  unfold b2m_keep. apply pure_foldM. intros keep [u t].
+  apply pure_bind; [apply pure_ref|]. intros rc.
+  case_decide; [apply pure_ret|].
+  apply pure_bind; [apply pure_var_at_level|]. intros bit.
+  apply pure_bind; [apply pure_of_opt|]. intros var.
+  apply pure_bind; [apply pure_of_opt|]. intros bits.
+  apply pure_bind; [apply pure_of_opt|]. intros lsb.
+  apply pure_bind; [apply pure_of_opt|]. intros min_level.
+  destruct (List.map _ _); [apply pure_raise|]. case_decide; apply pure_ret.
+Qed.
+
+(** *** [bdd_to_mdd] after the reordering: whenever it returns, every entry
+    of [umap] is an MDD reference with the value of the BDD node *)
+Theorem bdd_to_mdd_tail_partial_correct dvars b2s order s mdd umap s' :
+  Inv s → last_len s = None → b2m_wf dvars s →
+  bdd_to_mdd_tail dvars b2s order s = (Ok (mdd, umap), s') →
+  Inv s' ∧ extends s s' ∧ (∀ v a, valid s v → D s' v a = D s v a) ∧
+  MInv mdd ∧ mextends (b2m_mdd0 dvars) mdd ∧
+  ∀ u x, (u, x) ∈ umap →
+    valid s (Z.pos u) ∧ mvalid mdd x ∧
+    ∀ I, minrange mdd I → MD mdd x I = D s (Z.pos u) (bits_of dvars s I).
+Proof.
+  intros HI Hoff Hwf. unfold bdd_to_mdd_tail. cbn [bind get].
+  destruct (b2m_keep dvars b2s s s) as [rk sk] eqn:Ek.
+  pose proof (pure_b2m_keep dvars b2s s s rk sk Ek) as ->.
+  destruct rk as [keep|e]; [|rewrite (bind_err _ _ _ _ _ Ek); by intros [= ]].
+  rewrite (bind_ok _ _ _ _ _ Ek).
+  case_bool_decide as Hord; cbn [negb]; [|by intros [= ]].
+  destruct Hord as (_&Hset&_).
+  assert (Hdom : ∀ u, u ∈ order → u ∈ dom (succ s)).
+  { intros u Hu. assert (u ∈ (list_to_set order : gset positive)) as H by (by apply elem_of_list_to_set).
+    rewrite Hset in H. apply elem_of_list_to_set, elem_of_list_filter in H as [_ H].
+    by apply elem_of_elements in H. }
+  destruct (foldM (b2m_step dvars keep) (b2m_mdd0 dvars, [(1%positive, 1%Z)]) order s)
+    as [rf sf] eqn:Ef.
+  pose proof (b2m_fold_spec dvars s HI Hwf keep order s _ _ rf sf
+                (B2M_start dvars s HI Hwf Hoff) Hdom Ef) as HB.
+  destruct rf as [[mdd' umap']|e]; [|rewrite (bind_err _ _ _ _ _ Ef); by intros [= ]].
+  rewrite (bind_ok _ _ _ _ _ Ef). cbn [ret]. intros [= <- <- <-].
+  split; [apply HB|]. split; [apply HB|]. split.
+  { intros v a Hv. apply D_extends; [apply HB|done|done]. }
+  split; [apply HB|]. split; [apply HB|].
+  intros u x Hin. destruct (b_umap _ _ _ _ _ HB u x Hin) as (?&?&_&HD).
+  split_and!; try done. intros I Hr. apply HD.
+  intros v l n Hv. apply (Hr v l n). destruct (b_mext _ _ _ _ _ HB) as [_ <-]. done.
+Qed.
+
+(** *** the dicts of [_enumerate_integer]: in dict number [k], the bit listed
+    at position [p] gets binary digit [p] of [k] (first listed bit least
+    significant) *)
+Definition val_le (l : list bool) : nat := foldr (fun b acc => Nat.b2n b + 2 * acc) 0 l.
+
+Lemma val_le_app l b : val_le (l ++ [b]) = val_le l + Nat.b2n b * 2 ^ length l.
+Proof.
+  induction l as [|x l IH]; cbn [val_le foldr app length Nat.pow].
+  - lia.
+  - fold (val_le (l ++ [b])). fold (val_le l). rewrite IH. lia.
+Qed.
+
+Lemma bitvectors_val n : ∀ k bv, bitvectors n !! k = Some bv → val_le (reverse bv) = k.
+Proof.
+  induction n as [|n IH]; intros k bv; cbn [bitvectors].
+  - destruct k; [|done]. by intros [= <-].
+  - intros [H|[Hk H]]%lookup_app_Some.
+    + rewrite list_lookup_fmap in H. destruct (bitvectors n !! k) as [bv'|] eqn:E; [|done].
+      injection H as <-. rewrite reverse_cons, val_le_app. cbn. rewrite (IH k bv' E). lia.
+    + rewrite fmap_length, bitvectors_length in Hk, H. rewrite list_lookup_fmap in H.
+      destruct (bitvectors n !! (k - 2 ^ n)) as [bv'|] eqn:E; [|done].
+      injection H as <-. rewrite reverse_cons, val_le_app, reverse_length.
+      rewrite (bitvectors_elem_length n bv' (elem_of_list_lookup_2 _ _ _ E)).
+      rewrite (IH _ bv' E). cbn. lia.
+Qed.
+
+Lemma testbit_val_le l : ∀ p x, l !! p = Some x → Nat.testbit (val_le l) p = x.
+Proof.
+  induction l as [|b l IH]; intros p x; [done|].
+  cbn [val_le foldr]. fold (val_le l). rewrite (Nat.add_comm (Nat.b2n b)).
+  destruct p as [|p]; cbn [lookup list_lookup].
+  - intros [= <-]. apply Nat.testbit_0_r.
+  - intros H. rewrite Nat.testbit_succ_r. by apply IH.
+Qed.
+
+Theorem enumerate_integer_testbit bits k d p b :
+  NoDup bits → enumerate_integer bits !! k = Some d → bits !! p = Some b →
+  Mdd.assoc d b = Some (Nat.testbit k p).
+Proof.
+  intros Hnd Hd Hp. pose proof (enumerate_integer_fst bits k d Hd) as Hfst.
+  unfold enumerate_integer in Hd. rewrite list_lookup_fmap in Hd.
+  destruct (bitvectors (length bits) !! k) as [bv|] eqn:E; [|done]. injection Hd as <-.
+  pose proof (bitvectors_elem_length _ _ (elem_of_list_lookup_2 _ _ _ E)) as Hlen.
+  assert (is_Some (reverse bv !! p)) as [x Hx].
+  { apply lookup_lt_is_Some. rewrite reverse_length, Hlen. by eapply lookup_lt_Some. }
+  rewrite assoc_alist. rewrite (alist_get_nodup _ b x).
+  - f_equal. rewrite <- (bitvectors_val _ _ _ E). symmetry. by apply testbit_val_le.
+  - by rewrite Hfst.
+  - apply elem_of_list_lookup. exists p. rewrite lookup_zip_with, Hp. cbn. by rewrite Hx.
+Qed.
+
+(** the induced bit assignment, in terms of binary digits *)
+Lemma bits_of_testbit dvars s I l b var j bits p :
+  Inv s → b2m_wf dvars s → lvl2var s !! l = Some b → (var, (j, bits)) ∈ dvars →
+  bits !! p = Some b → I j < 2 ^ length bits →
+  bits_of dvars s I l = Nat.testbit (I j) p.
+Proof.
+  intros HI Hwf Hl Hvar Hp HIj. unfold bits_of. rewrite Hl.
+  rewrite (b2v_assoc dvars s Hwf b var)
+    by (apply b2v_elem; exists j, bits; split; [done|by eapply elem_of_list_lookup_2]).
+  rewrite (dvars_assoc dvars s Hwf var j bits Hvar).
+  destruct (lookup_lt_is_Some_2 (enumerate_integer bits) (I j)) as [d Hd];
+    [by rewrite enumerate_integer_length|].
+  rewrite Hd. cbn.
+  by rewrite (enumerate_integer_testbit bits (I j) d p b (bw_bits _ _ Hwf var j bits Hvar) Hd Hp).
+Qed.
+
+(** *** a checker for [b2m_wf] (to show the hypotheses satisfiable on
+    concrete managers) *)
+Definition b2m_wf_b (dvars : dvars_t) (s : st) : bool :=
+  let lv := (fun x : nat * (nat * list nat) => x.2.1) <$> dvars in
+  bool_decide (NoDup (dvars.*1)) && bool_decide (NoDup lv) &&
+  forallb (fun l => bool_decide (l ∈ lv)) (seq 0 (length dvars)) &&
+  forallb (fun x : nat * (nat * list nat) =>
+             bool_decide (x.2.1 < length dvars) && bool_decide (NoDup x.2.2)) dvars &&
+  bool_decide (NoDup (b2v dvars).*1) &&
+  forallb (fun l' => forallb (fun l => bool_decide (ilvl dvars s l ≤ ilvl dvars s l'))
+                             (seq 0 (S l'))) (seq 0 (nvars s)).
+
+Lemma NoDup_fmap_inj_elem {A B} (f : A → B) (l : list A) x y :
+  NoDup (f <$> l) → x ∈ l → y ∈ l → f x = f y → x = y.
+Proof.
+  intros Hnd [i Hi]%elem_of_list_lookup [j Hj]%elem_of_list_lookup E.
+  assert (i = j); [|congruence].
+  apply (NoDup_lookup (f <$> l) i j (f x)); [done|by rewrite list_lookup_fmap, Hi|].
+  by rewrite list_lookup_fmap, Hj, E.
+Qed.
+
+Lemma b2m_wf_b_sound dvars s : b2m_wf_b dvars s = true → b2m_wf dvars s.
+Proof.
+  unfold b2m_wf_b. cbv zeta.
+  intros [[[[[H1 H2]%andb_true_iff H3]%andb_true_iff H4]%andb_true_iff H5]%andb_true_iff H6]%andb_true_iff.
+  apply bool_decide_eq_true in H1, H2, H5. rewrite forallb_forall in H3, H4, H6.
+  set (L := List.map (fun x : nat * (nat * list nat) => (x.1, (x.2.1, 2 ^ length x.2.2))) dvars).
+  assert (HL : ∀ v l n, (v, (l, n)) ∈ L → ∃ bits, (v, (l, bits)) ∈ dvars).
+  { intros v l n Hin. apply elem_of_list_In, in_map_iff in Hin as ([v' [l' bits]]&[= -> -> _]&Hin).
+    exists bits. by apply elem_of_list_In. }
+  split.
+  - split; [|split].
+    + subst L. by rewrite map_fst_mdd.
+    + intros v1 v2 l n1 n2 [b1 Hv1]%HL [b2 Hv2]%HL.
+      by pose proof (NoDup_fmap_inj_elem (fun x : nat * (nat * list nat) => x.2.1) dvars
+                  _ _ H2 Hv1 Hv2 eq_refl) as [= -> _].
+    + intros l Hl. subst L. rewrite map_length in Hl.
+      assert (In l (seq 0 (length dvars))) as Hin by (apply in_seq; lia).
+      apply H3, bool_decide_eq_true, elem_of_list_fmap in Hin as ([v [l' bits]]&->&Hin).
+      exists v, (2 ^ length bits). apply elem_of_list_In, in_map_iff.
+      exists (v, (l', bits)). split; [done|]. by apply elem_of_list_In.
+  - intros v j bits Hin%elem_of_list_In. apply H4, andb_true_iff in Hin as [Hj _].
+    by apply bool_decide_eq_true in Hj.
+  - intros v j bits Hin%elem_of_list_In. apply H4, andb_true_iff in Hin as [_ Hb].
+    by apply bool_decide_eq_true in Hb.
+  - intros b v1 v2 Hb1 Hb2.
+    by pose proof (NoDup_fmap_inj_elem fst (b2v dvars) _ _ H5 Hb1 Hb2 eq_refl) as [= ->].
+  - intros l l' Hle Hl'.
+    assert (In l' (seq 0 (nvars s))) as Hin' by (apply in_seq; lia).
+    apply H6 in Hin'. rewrite forallb_forall in Hin'.
+    assert (In l (seq 0 (S l'))) as Hin by (apply in_seq; lia).
+    apply Hin' in Hin. by apply bool_decide_eq_true in Hin.
+Qed.
+
+(** ** The counters stay exact *)
+Lemma mbump_all_lookup l : ∀ m n,
+  mbump_all l m !! n = (fun y => y + length (filter (fun x => absn x = n) l)) <$> m !! n.
+Proof.
+  induction l as [|x l IH]; intros m n.
+  - cbn. destruct (m !! n); cbn; [f_equal; lia|done].
+  - unfold mbump_all. cbn [foldl]. fold (mbump_all l (alter S (absn x) m)). rewrite IH.
+    destruct (decide (absn x = n)) as [E|E].
+    + rewrite filter_cons_True by done. rewrite <- E, lookup_alter.
+      destruct (m !! absn x); cbn; [f_equal; lia|done].
+    + rewrite filter_cons_False by done. by rewrite lookup_alter_ne.
+Qed.
+
+Lemma m_indeg_outside s n : MInv s → n ∉ dom (msucc s) → m_indeg (msucc s) n = 0.
+Proof.
+  intros HI Hn. destruct (decide (0 < m_indeg (msucc s) n)) as [H|]; [|lia].
+  destruct (m_indeg_pos _ _ H) as (k&t&Hk&He).
+  by destruct (MW_edges_dom s (MInv_MW s HI) k t n Hk He) as (?&_).
+Qed.
+
+Lemma MCounts_same s s' L : msucc s' = msucc s → mref s' = mref s → MCounts s L → MCounts s' L.
+Proof. intros E1 E2. unfold MCounts. by rewrite E1, E2. Qed.
+
+Lemma mdd_init_MCounts dvars : MCounts (mdd_init dvars) (fun _ => 0).
+Proof.
+  split; [|done]. intros n Hn. cbn in Hn |- *. rewrite dom_singleton_L in Hn.
+  apply elem_of_singleton in Hn as ->. rewrite lookup_singleton. f_equal.
+
+Qed.
+
+Theorem m_find_or_add_counts s L i nodes r s' :
+  MInv s → MCounts s L → (∀ x, x ∈ nodes → mvalid s x) →
+  m_find_or_add i nodes s = (r, s') → MCounts s' L.
+Proof.
+  intros HI HC Hch. unfold m_find_or_add. cbn [bind get]. unfold ensure.
+  case_bool_decide; [|by intros [= <- <-]]. rewrite (bind_ok _ _ s tt s) by done.
+  destruct (m_var_at_level i s) as [rv sv] eqn:Ev.
+  assert (sv = s) as ->.
+  { revert Ev. unfold m_var_at_level. cbn [bind get].
+    destruct (match list_find _ _ with Some _ => _ | None => _ end); by intros [= _ <-]. }
+  destruct rv as [v|e]; [|rewrite (bind_err _ _ _ _ _ Ev); by intros [= <- <-]].
+  rewrite (bind_ok _ _ _ _ _ Ev).
+  destruct (m_len_of v s) as [rn sn] eqn:En.
+  assert (sn = s) as ->.
+  { revert En. unfold m_len_of. cbn [bind get]. destruct (snd <$> mvars s !! v); by intros [= _ <-]. }
+  destruct rn as [n|e]; [|rewrite (bind_err _ _ _ _ _ En); by intros [= <- <-]].
+  rewrite (bind_ok _ _ _ _ _ En).
+  case_bool_decide; [|by intros [= <- <-]]. rewrite (bind_ok _ _ s tt s) by done.
+  case_bool_decide; [|by intros [= <- <-]]. rewrite (bind_ok _ _ s tt s) by done.
+  destruct (forallb (fun u => m_mem u s) nodes); [|by intros [= <- <-]].
+  rewrite (bind_ok _ _ s tt s) by done.
+  set (r0 := (if decide (default 0 (head nodes) < 0) then -1 else 1)%Z).
+  set (nodes' := (fun x => (r0 * x)%Z) <$> nodes).
+  assert (Hch' : ∀ x, x ∈ nodes' → mvalid s x).
+  { intros x Hx. apply elem_of_list_fmap in Hx as (y&->&Hy). specialize (Hch y Hy).
+    subst r0. case_decide.
+    - replace (-1 * y)%Z with (- y)%Z by lia. by apply mvalid_neg.
+    - by rewrite Z.mul_1_l. }
+  destruct (forallb _ nodes'); [by intros [= <- <-]|].
+  destruct (mpred s !! ((i, nodes') : mtuple)) as [u|]; [by intros [= <- <-]|].
+  destruct (m_allocate s) as [ru s1] eqn:Eal.
+  pose proof Eal as Eal'. apply m_allocate_spec in Eal' as (HI1&E1&E2&E3&E4&E5&_&Hu); [|done].
+  assert (HC1 : MCounts s1 L) by (by apply (MCounts_same s)).
+  destruct ru as [u|e]; [|rewrite (bind_err _ _ _ _ _ Eal); by intros [= <- <-]].
+  rewrite (bind_ok _ _ _ _ _ Eal). cbn [bind get].
+  destruct Hu as (Hfree&_&_).
+  assert (Hfree1 : mlk s1 u = None) by (by rewrite E1).
+  unfold m_mem, assert. rewrite bool_decide_eq_false_2; cycle 1.
+  { intros [_ [t Ht]]. rewrite absn_pos, Hfree1 in Ht. done. }
+  cbn [negb]. rewrite (bind_ok _ _ s1 tt s1) by done. cbn [bind modify].
+  set (s2 := s1 <| mpred ::= _ |> <| msucc ::= _ |> <| mref ::= _ |>).
+  assert (Hinc : ∀ x, x ∈ nodes' → x ≠ 0%Z ∧ absn x ∈ dom (mref s2)).
+  { intros x Hx. destruct (Hch' x Hx) as [Hx0 Hxs]. split; [done|].
+    subst s2. cbn. rewrite dom_insert_L, E3, (minv_ref _ HI). apply elem_of_union. right.
+    by apply elem_of_dom. }
+  rewrite (bind_ok _ _ _ _ _ (m_incref_loop nodes' s2 Hinc)).
+  unfold ret. intros [= <- <-].
+  destruct HC1 as [Hc1 Hc2].
+  assert (Hud : u ∉ dom (msucc s1)) by (by apply not_elem_of_dom).
+  assert (Hcnt : ∀ k, length (filter (fun x => absn x = k) nodes') = m_edges_to ((i, nodes') : mtuple) k) by done.
+  split.
+  - intros k Hk. cbn in Hk |- *. rewrite m_indeg_insert_fresh by done.
+    rewrite mbump_all_lookup, Hcnt.
+    destruct (decide (k = u)) as [->|Hnu].
+    + rewrite lookup_insert. cbn. f_equal.
+      rewrite (m_indeg_outside s1 u HI1 Hud), (Hc2 u Hud). lia.
+    + rewrite lookup_insert_ne by done.
+      rewrite dom_insert_L in Hk. assert (k ∈ dom (msucc s1)) as Hk' by set_solver.
+      rewrite (Hc1 k Hk'). cbn. f_equal. lia.
+  - intros k Hk. cbn in Hk. apply Hc2. rewrite dom_insert_L in Hk. set_solver.
+Qed.
+
+Definition ite_counts_at (f : nat) : Prop := ∀ s L g u v r s',
+  MInv s → MCounts s L → mvalid s g → mvalid s u → mvalid s v →
+  mnvars s - mminlvl3 s g u v < f →
+  m_ite f g u v s = (r, s') → MCounts s' L.
+
+Lemma mapM_ite_counts f (IHf : ite_counts_at f) L : ∀ l s r s', MInv s → MCounts s L →
+  (∀ a b c, (a, b, c) ∈ l →
+     mvalid s a ∧ mvalid s b ∧ mvalid s c ∧ mnvars s - mminlvl3 s a b c < f) →
+  mapM (fun '(a, b, c) => m_ite f a b c) l s = (r, s') → MCounts s' L.
+Proof.
+  induction l as [|[[a b] c] l IHl]; intros s r s' HI HC Hl.
+  - cbn. by intros [= <- <-].
+  - cbn [mapM].
+    destruct (Hl a b c ltac:(left)) as (Ha&Hb&Hc&Hm).
+    destruct (m_ite f a b c s) as [rw s1] eqn:Ew.
+    pose proof (IHf _ _ _ _ _ _ _ HI HC Ha Hb Hc Hm Ew) as HC1.
+    pose proof Ew as Ew'. apply m_ite_spec in Ew' as (HI1&He1&_&_); try done.
+    destruct rw as [w|e]; [|rewrite (bind_err _ _ _ _ _ Ew); by intros [= <- <-]].
+    rewrite (bind_ok _ _ _ _ _ Ew).
+    destruct (mapM (fun '(a, b, c) => m_ite f a b c) l s1) as [rws s2] eqn:Ews.
+    assert (HC2 : MCounts s2 L).
+    { apply (IHl s1 rws s2 HI1 HC1); [|done].
+      intros a' b' c' Hin. destruct (Hl a' b' c' ltac:(by right)) as (?&?&?&?).
+      rewrite (mextends_nvars s s1) by done. rewrite (mminlvl3_extends s s1) by done.
+      split_and!; try done; by apply (mvalid_extends s s1). }
+    destruct rws as [ws|e]; [|rewrite (bind_err _ _ _ _ _ Ews); by intros [= <- <-]].
+    rewrite (bind_ok _ _ _ _ _ Ews). by intros [= <- <-].
+Qed.
+
+Theorem m_ite_counts fuel : ite_counts_at fuel.
+Proof.
+  induction fuel as [|f IH]; intros s L g u v r s' HI HC Hg Hu Hv Hfuel; [lia|].
+  cbn [m_ite].
+  destruct (decide (g = 1%Z)) as [->|Hgn1]; [by intros [= <- <-]|].
+  destruct (decide (g = (-1)%Z)) as [->|Hgnm1]; [by intros [= <- <-]|].
+  cbn [bind get].
+  destruct (mite s !! (g, u, v)) as [w|] eqn:Hc; [by intros [= <- <-]|].
+  pose proof Hg as [Hg0 [tg Htg]]. pose proof Hu as [Hu0 [tu Htu]].
+  pose proof Hv as [Hv0 [tv Htv]].
+  rewrite (bind_ok _ _ _ _ _ (m_getsucc_ok s g tg Hg0 Htg)).
+  rewrite (bind_ok _ _ _ _ _ (m_getsucc_ok s u tu Hu0 Htu)).
+  rewrite (bind_ok _ _ _ _ _ (m_getsucc_ok s v tv Hv0 Htv)).
+  assert (Ez : tg.1 `min` tu.1 `min` tv.1 = mminlvl3 s g u v).
+  { unfold mminlvl3, mlvl_of. by rewrite Htg, Htu, Htv. }
+  rewrite Ez. clear Ez Htg Htu Htv tg tu tv.
+  set (z := mminlvl3 s g u v) in *.
+  destruct (min3_le (mlvl_of s g) (mlvl_of s u) (mlvl_of s v)) as (Hzg&Hzu&Hzv).
+  fold (mminlvl3 s g u v) in Hzg, Hzu, Hzv. fold z in Hzg, Hzu, Hzv.
+  assert (Hzn : z < mnvars s).
+  { destruct (mnode_cases s HI g Hg) as [[E _]|(i&nodes&?&?&?&Hl&?&_)]; [|lia].
+    destruct (absn_1 g E Hg0); done. }
+  assert (∃ n, mlen_at s z n ∧ 0 < n) as (n&Hlen&Hn).
+  { destruct (min3_attained (mlvl_of s g) (mlvl_of s u) (mlvl_of s v)) as [E|[E|E]];
+      fold (mminlvl3 s g u v) in E; fold z in E; rewrite E; apply mlen_of_level; try done; lia. }
+  destruct (m_top_cofactor_ok s g z n HI Hg Hzg Hzn Hlen Hn) as (gc&Eg&Lg&Cg&_).
+  destruct (m_top_cofactor_ok s u z n HI Hu Hzu Hzn Hlen Hn) as (uc&Eu&Lu&Cu&_).
+  destruct (m_top_cofactor_ok s v z n HI Hv Hzv Hzn Hlen Hn) as (vc&Ev&Lv&Cv&_).
+  rewrite (bind_ok _ _ _ _ _ Eg), (bind_ok _ _ _ _ _ Eu), (bind_ok _ _ _ _ _ Ev).
+  assert (Hzip : ∀ a b c, (a, b, c) ∈ zip3 gc uc vc →
+            mvalid s a ∧ mvalid s b ∧ mvalid s c ∧ mnvars s - mminlvl3 s a b c < f).
+  { intros a b c Hin. apply zip3_elem in Hin as (Hia&Hib&Hic).
+    destruct (Cg a Hia), (Cu b Hib), (Cv c Hic). split_and!; try done.
+    unfold mminlvl3. lia. }
+  destruct (mapM (fun '(a, b, c) => m_ite f a b c) (zip3 gc uc vc) s) as [rn s1] eqn:En.
+  pose proof (mapM_ite_counts f IH L _ _ _ _ HI HC Hzip En) as HC1.
+  pose proof En as En'. apply (mapM_ite_spec f (m_ite_spec f)) in En' as (HI1&He1&_&Hnodes); [|done|done].
+  destruct rn as [nodes|e]; [|rewrite (bind_err _ _ _ _ _ En); by intros [= <- <-]].
+  rewrite (bind_ok _ _ _ _ _ En).
+  destruct Hnodes as [Hlenn Hlk].
+  destruct (m_find_or_add z nodes s1) as [rw s2] eqn:Ew.
+  assert (HC2 : MCounts s2 L).
+  { apply (m_find_or_add_counts s1 L z nodes rw s2 HI1 HC1); [|done].
+    intros x [k Hk]%elem_of_list_lookup.
+    pose proof (lookup_lt_Some _ _ _ Hk) as Hkn. rewrite Hlenn in Hkn.
+    destruct (lookup_lt_is_Some_2 _ _ Hkn) as [[[a b] c] Habc].
+    by destruct (Hlk k a b c x Habc Hk) as (?&_). }
+  destruct rw as [w|e]; [|rewrite (bind_err _ _ _ _ _ Ew); by intros [= <- <-]].
+  rewrite (bind_ok _ _ _ _ _ Ew). cbn [bind modify ret]. intros [= <- <-].
+  by apply (MCounts_same s2).
+Qed.
+
+(** the entry points *)
+Theorem m_ite__counts s L g u v r s' :
+  MInv s → MCounts s L → mvalid s g → mvalid s u → mvalid s v →
+  m_ite_ g u v s = (r, s') → MCounts s' L.
+Proof.
+  intros HI HC Hg Hu Hv. unfold m_ite_. cbn [bind get].
+  apply m_ite_counts; try done. fold (mnvars s). lia.
+Qed.
+
+Theorem mdd_apply_counts s L op u v w r s' f :
+  MInv s → MCounts s L → op ∈ py_vocab → conn_sem op = Some f →
+  mvalid s u → movalid s v → movalid s w → arity_ok op v w = true →
+  mdd_apply_with mdd_apply_table op u v w s = (r, s') → MCounts s' L.
+Proof.
+  intros HI HC Hop Hf Hu Hv Hw Har Hrun.
+  pose proof alias_table_ok as Htab. rewrite forallb_forall in Htab.
+  pose proof mdd_table_rows as Hrows. rewrite forallb_forall in Hrows.
+  apply elem_of_list_In in Hop. specialize (Htab op Hop). specialize (Hrows op Hop).
+  apply elem_of_list_In in Hop. apply bool_decide_eq_true in Hrows.
+  apply orb_true_iff in Htab as [Hq|Hok].
+  { exfalso. apply bool_decide_eq_true in Hq. unfold quantifier_ops in Hq.
+    repeat (apply elem_of_cons in Hq as [->|Hq]; [by vm_compute in Hf|]).
+    by apply elem_of_nil in Hq. }
+  unfold class_uses_ok in Hok.
+  destruct (find_template py_apply_table op) as [t|] eqn:Ht; [|done].
+  destruct (template_uses t) as [uv uw] eqn:Hus.
+  apply andb_true_iff in Hok as [Hcl _].
+  destruct py_table_is_model_table as (Etab&Eu&Eb&Et).
+  pose proof Har as Har'. unfold arity_ok in Har. rewrite <- Eu, <- Eb, <- Et in Har.
+  assert (Hav : avail (template_uses t) v w).
+  { rewrite Hus. unfold avail. cbn.
+    destruct (bool_decide (op ∈ py_unary)).
+    - apply andb_true_iff in Hcl as [?%negb_true_iff ?%negb_true_iff]. split; congruence.
+    - destruct (bool_decide (op ∈ py_binary)).
+      + apply negb_true_iff in Hcl. apply bool_decide_eq_true in Har as [? ?]. split; congruence.
+      + rewrite Hcl in Har. apply bool_decide_eq_true in Har as [? ?]. by split. }
+  rewrite (mdd_apply_run _ _ _ _ _ _ Har' Hu Hv Hw), Hrows in Hrun.
+  cbn [fmap option_fmap option_map] in Hrun.
+  destruct t as [o|a b c|fa a b]; try (by injection Hrun as <- <-).
+  cbn in Hav.
+  destruct (m_eval_operand_spec s a u v w HI Hu Hv Hw (avail_por_l _ _ _ _ Hav)) as [Va _].
+  destruct (m_eval_operand_spec s b u v w HI Hu Hv Hw
+              (avail_por_l _ _ _ _ (avail_por_r _ _ _ _ Hav))) as [Vb _].
+  destruct (m_eval_operand_spec s c u v w HI Hu Hv Hw
+              (avail_por_r _ _ _ _ (avail_por_r _ _ _ _ Hav))) as [Vc _].
+  by apply (m_ite__counts s L _ _ _ r s' HI HC Va Vb Vc).
+Qed.
+
+(** [incref] / [decref] move the ledger entry of the node by one *)
+Lemma MCounts_incref s L u r s' :
+  mvalid s u → MCounts s L → m_incref u s = (r, s') →
+  r = Ok tt ∧ MCounts s' (ledger_inc L (absn u)).
+Proof.
+  intros [Hu0 Hu] [H1 H2] Hrun. apply elem_of_dom in Hu.
+  rewrite (m_incref_run s u Hu0) in Hrun by (rewrite (H1 _ Hu); by eexists).
+  injection Hrun as <- <-. split; [done|]. split.
+  - intros n Hn. cbn in *. rewrite lookup_alter_if, (H1 n Hn). unfold ledger_inc.
+    destruct (decide (absn u = n)), (decide (n = absn u)); try congruence; cbn; f_equal; lia.
+  - intros n Hn. cbn in Hn. unfold ledger_inc. rewrite decide_False; [by apply H2|].
+    intros ->. done.
+Qed.
+
+Lemma MCounts_decref s L u r s' :
+  mvalid s u → MCounts s L → 0 < L (absn u) → m_decref u s = (r, s') →
+  r = Ok tt ∧ MCounts s' (ledger_dec L (absn u)).
+Proof.
+  intros [Hu0 Hu] [H1 H2] HL Hrun. apply elem_of_dom in Hu.
+  rewrite (m_decref_run s u Hu0) in Hrun by (rewrite (H1 _ Hu); by eexists).
+  injection Hrun as <- <-. split; [done|]. split.
+  - intros n Hn. cbn in *. rewrite lookup_alter_if, (H1 n Hn). unfold ledger_dec.
+    destruct (decide (absn u = n)), (decide (n = absn u)); try congruence; cbn; f_equal.
+    subst. lia.
+  - intros n Hn. cbn in Hn. unfold ledger_dec. rewrite decide_False; [by apply H2|].
+    intros ->. done.
 Qed.
